@@ -19,6 +19,13 @@ SYNTAX_FAULTS = [("(if)", False), ("(lambda)", False), ("(define)", False), (")"
                  ("(display 1", True), ('(display "abc', True), ("(list 1 (list 2)", True), ("#(1 2", True)]
 
 
+def unesc(s):
+    """inverse of the harness's escaping of captured text"""
+    import re
+    s = re.sub(r"\\u\{([0-9a-fA-F]+)\}", lambda m: chr(int(m.group(1), 16)), s)
+    return s
+
+
 def gen_program(rng):
     g = P.Gen(rng, ticks=False, max_depth=3)
     forms = ["(import (scheme base) (scheme write))"]
@@ -91,8 +98,12 @@ def run(rep, tier, rng):
                 rest = lines[0].strip()[len(path):]
                 kind, loc = lib_res.split(" ")[1], lib_res.split(" ")[2]
                 if loc != "-" and not rest.startswith(":" + loc + " "): problems.append("diagnostic location is not FILE:%s" % loc)
-                if F.msg_kind(rest.split(" ", 1)[1] if loc != "-" and " " in rest else rest) != kind and kind != "syntax":
-                    problems.append("diagnostic message is not of kind " + kind)
+                # MESSAGE = the Display of the error the library interface returns for the same text (compared with what this
+                # very build prints in process, so rewording a message is not an alarm)
+                lib_msg = next((x[2:] for x in li if x.startswith("M ")), None)
+                said = rest.split(" ", 1)[1] if loc != "-" and " " in rest else rest
+                if lib_msg is not None and C.esc_out(" ".join(said.split())) != C.esc_out(" ".join(unesc(lib_msg).split())):
+                    problems.append("the diagnostic's message is not the message of the error the library interface reports: " + unesc(lib_msg))
         else:
             if rc != 0: problems.append("non-zero exit status although every form succeeded")
             if err.strip(): problems.append("something on standard error although every form succeeded")
